@@ -390,6 +390,24 @@ class Check:
     # -- proofs ------------------------------------------------------------------------------------
     def prove(self, module_rel, extra_targets=()):
         """Compile theories/Properties/<prop>.v (and deps), run Print Assumptions on every statement in it.
+        module_rel may be a list of property files (their statements are all obligations of this check).
+        Returns list of failed obligations (names); records them in coverage."""
+        if isinstance(module_rel, (list, tuple)):
+            allfailed, names_total, disc_total, cmds = [], 0, 0, []
+            for mrel in module_rel:
+                f = self._prove_one(mrel, extra_targets)
+                allfailed += f
+                names_total += self.cov["obligations"]
+                disc_total += self.cov["discharged"]
+                cmds.append(self.cov["checker_cmd"])
+            self.cov["obligations"], self.cov["discharged"] = names_total, disc_total
+            self.cov["checker_cmd"] = " ; ".join(cmds)
+            self.failed_obligations = allfailed
+            return allfailed
+        return self._prove_one(module_rel, extra_targets)
+
+    def _prove_one(self, module_rel, extra_targets=()):
+        """Compile theories/Properties/<prop>.v (and deps), run Print Assumptions on every statement in it.
         Returns list of failed obligations (names); records them in coverage."""
         vfile = os.path.join(COQ, module_rel)
         target = module_rel[:-2] + ".vo"
